@@ -62,7 +62,7 @@ CHECKS = {
     "C08": ("TLA+ spec/Life.tla (non-atomic teardown by the state machine thread, transport thread, receive worker, consumers "
             "blocked in get_message, application threads calling close() and send_message(), the peer as environment) "
             "model-checked by TLC for both roles: TerminalOk, ClosedIsReleased, NoLockLeak and, under fairness, "
-            "EventuallyReleased / CausesEnd; eight deviations shown to violate them; the real node run under a deterministic "
+            "EventuallyReleased / CausesEnd; ten deviations shown to violate them; the real node run under a deterministic "
             "scheduler for every cause x point x consumer x role with restart on the same object, and one-preemption sweeps "
             "that generalise TLC's counterexample schedules",
             "Every interleaving of the teardown with 2 consumers in the model (3.5M states per role in the thorough tier); every "
